@@ -76,8 +76,8 @@ M = [
   [("                // reset and let's go again\n                self.reset(buf);\n                return self.push_byte(buf, b);", "                // reset and let's go again\n                return self.push_byte(buf, b);")],
   "after a delivered frame the next byte recurses without leaving the Done state: unbounded recursion (process abort) - exercises the crash attribution path"),
  ("M24-invalid-esc-spins", "src/transport/decode.rs", ["C05"],
-  [("                        // invalid escape sequence\n\n                        self.reset(buf);", "                        // invalid escape sequence\n                        #[allow(clippy::empty_loop)]\n                        while payload[0] == 0x1c {}\n                        self.reset(buf);")],
-  "an invalid escape sequence starting with 1c makes the decoder spin forever - exercises the hang watchdog"),
+  [("                        // invalid escape sequence\n\n                        self.reset(buf);", "                        // invalid escape sequence\n                        #[allow(clippy::empty_loop)]\n                        while payload[0] == 0x02 {}\n                        self.reset(buf);")],
+  "an invalid escape sequence starting with 02 makes the decoder spin forever - exercises the hang watchdog"),
  ("M25-streaming-parser-allocates", "src/parser/streaming.rs", ["C06"],
   [("    pub fn new(input: &'i [u8]) -> Self {\n        Parser {", "    pub fn new(input: &'i [u8]) -> Self {\n        #[cfg(feature = \"alloc\")]\n        if input.len() > 300 {\n            let scratch: alloc::vec::Vec<u8> = input.to_vec();\n            core::mem::drop(scratch);\n        }\n        Parser {")],
   "the streaming parser makes a heap copy of inputs longer than 300 bytes"),
